@@ -47,6 +47,14 @@ StrCases(n) ==
 \cup {[r |-> A(<<I(1), I(2)>>), f |-> "slice", a |-> a] : a \in {<<IMax(0)>>, <<IMin(0)>>, <<I(0), IMax(0)>>, <<IMin(0), IMin(0)>>, <<IMax(0), I(1)>>}}
 \cup {[r |-> r, f |-> f, a |-> <<c>>] : r \in Strs(n), f \in {"trim", "trimLeft", "trimRight"}, c \in {C(<<"a">>), C(<<" ", "a">>), C(<<"$e$">>), C(<<>>)}}
 \cup {[r |-> r, f |-> "split", a |-> <<c>>] : r \in Strs(n), c \in {C(<<"a">>), C(<<" ">>), C(<<"$e$">>), C(<<"a", "B">>)}}
+\* longer strings that mix 1-, 2-, 3- and 4-byte characters: character positions are not byte positions
+MixedStrs == {C(<<"$e$", "a", "B">>), C(<<"a", "$u$", "B", "$g$">>), C(<<"$g$", "$e$", "a", " ", "$u$">>), C(<<"a", "B", "$e$">>)}
+MixedCases == {[r |-> r, f |-> f, a |-> <<>>] : r \in MixedStrs, f \in {"len", "upper", "lower", "capitalize", "reverse", "first", "last", "trim", "split"}}
+         \cup {[r |-> r, f |-> "at", a |-> a] : r \in MixedStrs, a \in IntArgs(-6, 6)}
+         \cup {[r |-> r, f |-> "truncate", a |-> a] : r \in MixedStrs, a \in IntArgs(-1, 6)}
+         \cup {[r |-> r, f |-> "contains", a |-> <<c>>] : r \in MixedStrs, c \in {C(<<"a">>), C(<<"$e$", "a">>), C(<<"B", "$g$">>), C(<<"$u$">>), C(<<"$g$", "a">>)}}
+         \cup {[r |-> r, f |-> "split", a |-> <<c>>] : r \in MixedStrs, c \in {C(<<"a">>), C(<<"$e$">>), C(<<" ">>)}}
+         \cup {[r |-> r, f |-> "repeat", a |-> <<I(2)>>] : r \in MixedStrs}
 ContainsCases(n, m) == {[r |-> r, f |-> "contains", a |-> <<c>>] : r \in Strs(n), c \in Strs(m)}
 NumStrs == {C(<<"1", "2">>), C(<<"-", "5">>), C(<<"1", ".", "5">>), C(<<"a", "b">>), C(<<>>), C(<<"0">>), C(<<"+", "7">>), C(<<"1", " ">>)}
 DecArgs == {<<>>, <<C(<<",">>)>>, <<C(<<>>)>>} \cup {<<C(<<".">>), I(d)>> : d \in -1..3} \cup {<<C(<<"$u$">>), I(1)>>}
@@ -164,8 +172,8 @@ Cases == CASE Family = "twice" -> TwiceCases
            [] Family = "argvars" -> ArgVarCases
            [] Family = "conv" -> ConvCases
            [] Family = "convdata" -> ConvDataCases
-           [] Family = "str2" -> StrCases(2) \cup ContainsCases(2, 1) \cup DecCases
-           [] Family = "str3" -> StrCases(3) \cup ContainsCases(3, 2) \cup DecCases
+           [] Family = "str2" -> StrCases(2) \cup ContainsCases(2, 1) \cup DecCases \cup MixedCases
+           [] Family = "str3" -> StrCases(3) \cup ContainsCases(3, 2) \cup DecCases \cup MixedCases
            [] Family = "arr2" -> ArrCases(2) \cup SliceCases
            [] Family = "arr3" -> ArrCases(3) \cup SliceCases
            [] Family = "num" -> NumCases \cup WrongCases
